@@ -24,7 +24,7 @@ META = {
     "assumptions": ["'any number of breaks' is explored exhaustively to 2 breaks and randomly to 5",
                     "both ends eventually learn of a break (the acceptor at the latest when the initiator reconnects: the single-connection dummy server needs the old socket gone)",
                     "a send whose drain() raised stays open: its message may arrive at most once",
-                    "quiescence is bounded: 12 rounds of (deliver everything, let 100 virtual seconds pass, reconnect if down); a history that does not reach it is counted, not judged"],
+                    "quiescence is bounded: 12 fault-free rounds of (deliver everything, let >= 95 virtual seconds pass, reconnect if down); a history that does not reach it within the bound violates the 'ACTIVE after the exchange completes' clause (bounded progress, virtual time only)"],
 }
 REQUIRED_ORACLES = ["quiescent-comparison", "exhaustive-sequences", "breaks-with-traffic-in-flight"]
 REQUIRED_COUNTERS = ["breaks_in_the_middle_of_a_frame", "burst_histories", "connections_dying_under_a_handlers_reply", "new_messages_sent_by_another_task_during_a_retransmission", "breaks_with_traffic_in_flight_or_unacknowledged"]
@@ -442,6 +442,12 @@ def judge(acc, s, how, cid):
         if how == "cycle":
             key = classify(s, [("no-quiescence-cycle", "")], wit)
             acc.violation(key if key != "no-quiescence-cycle" else "no-quiescence-cycle", f"the session never re-establishes: global state repeats ({s.state()})", wit, cid)
+            return True
+        if how == "bound":
+            # bounded progress: 12 fault-free rounds (each: everything delivered, >= 95 virtual seconds, reconnect when down) without both
+            # ends ACTIVE on an idle link.  No wall clock is involved.
+            key = classify(s, [("no-quiescence-within-bound", "")], wit)
+            acc.violation(key, f"12 fault-free rounds after the last break the session is still not ACTIVE/ACTIVE and idle: {s.state()}; " + "; ".join(f"{k}: {d}" for k, d in problems[:3]), wit, cid)
             return True
         acc.add("histories_not_judged_no_quiescence")
         return False
